@@ -336,7 +336,7 @@ theorem demoteLocal_spec (ok : CfgOk c) (inv : UpperInv0 c H m) (r : Request) (f
       · subst e; simp
       · simp [gset, e]
     | error e =>
-      obtain ⟨rfl, rfl⟩ := hlr
+      obtain ⟨rfl, rfl, _⟩ := hlr
       simp only
       apply Runs.bind (tput_spec ok inv2 (row / c.g.treeRows) (2 ^ r.order) hlt (by simp))
       rintro _ m4 ⟨inv4, same4⟩
